@@ -116,6 +116,10 @@ def run_one(specs, cblock, cleanup):
                 kw['initdef'] = 1
             kind = sp['kind']
             if kind == 'probe':
+                # every second persistent block has an expiration time; the storage holds no time stamp
+                # of a previous stop (first run, or a run that was killed), so nothing can have expired
+                if sp['persistent'] and pos % 2 == 0:
+                    kw['expiration'] = 1000.0
                 if sp['async'] is not None:
                     blk = ProbeA(name, spec=sp, pos=pos, persistent=sp['persistent'],
                                  init_timeout=sp['async'][0] / TPS, **kw)
